@@ -736,6 +736,9 @@ func (e *Env) evalCall(n *ast.CallExpr) Value {
 			out.L[k] = app(un, l.Sort, v)
 		}
 		return out
+	case "samearr":
+		a, b := e.eval(n.Args[0]), e.eval(n.Args[1])
+		return scalar(bt, mkEq(a.L[0], b.L[0]))
 	case "sameslice":
 		a, b := e.eval(n.Args[0]), e.eval(n.Args[1])
 		return scalar(bt, mkAnd(mkEq(a.L[0], b.L[0]), mkEq(a.L[1], b.L[1]), mkEq(a.L[2], b.L[2])))
